@@ -240,6 +240,7 @@ def run_scenario(desc, keep_events=0, event_kinds=None, pre_ops=None) -> RunReco
                 except BaseException:
                     sim.count("history_runs_failed")
             rec.cfg_before = dump_model(cfg)
+            rec.task_before = dump_task(task)
             sim.obs["observing"] = True
             try:
                 mode = desc.get("mode", "serial")
